@@ -22,7 +22,7 @@ BUILDER_ORACLE = {'unit': 'builder', 'mount': 'src/compiler/builder.rs', 'mod': 
 # obligations of the builder unit that carry C20 (span recording) rather than C10 (widths)
 C20_BUILDER = (r'^builder/BytecodeBuilder::(emit|emit_jump|emit_jump_if_true|emit_jump_if_false|emit_jump_if_nullish|'
                r'emit_jump_if_not_nullish|emit_jump_to|emit_halt|set_span|clear_span|new|finish|patch_jump|patch_jump_to|'
-               r'patch_try_targets|patch_iter_try_target|current_offset|emit_load_string)/|^builder/BytecodeChunk::|^builder/lemma::lemma_lookup|^(lexer_pos|bytecode_srcmap|lexer_spans|parser_spans)/|^induction/lemma::lemma_walk')
+               r'patch_try_targets|patch_iter_try_target|current_offset|emit_load_string)/|^builder/BytecodeChunk::|^builder/lemma::lemma_lookup|^(lexer_pos|bytecode_srcmap|lexer_spans|parser_spans|trace)/|^induction/lemma::lemma_walk')
 C10_EXCLUDE = r'#(span_recorded|span_inherited|earlier_spans_kept)$|::(set_span|clear_span)/'
 
 PROPS = {
@@ -93,7 +93,7 @@ PROPS = {
         'not_carried': 'proof that compile_* callers respect the allocator protocol (side battery only); emit_load_number',
     },
     'C20': {
-        'verus': [BUILDER_VERUS, {'unit': 'induction', 'rlimit': 20}],
+        'verus': [BUILDER_VERUS, {'unit': 'induction', 'rlimit': 20}, {'unit': 'trace', 'rlimit': 20, 'safety_not_property': True}],
         'kani': [
             {'unit': 'lexer_pos', 'mount': 'src/lexer.rs', 'mod': 'verif_kani_lexer_pos',
              'harnesses': {
@@ -131,7 +131,10 @@ PROPS = {
         'obl_filter': C20_BUILDER,
         'trusted_base': COMMON_TB,
         'assumptions': [
-            'span-recording layer only: parser token->AST spans, compile_* calling set_span with the node being compiled, build_stack_trace and error formatting are NOT verified; they are linked to the layer only by the side battery (280 fault-planted programs x layouts; testing, not proof)',
+            'span-recording, lexer-position and trace-assembly layers only: parser token->AST spans, compile_* calling set_span with the node being compiled, the propagation of a trace across nested VMs and error formatting are NOT verified; they are linked to the layers only by the side battery (about 640 fault-planted programs x layouts x call shapes; testing, not proof)',
+            'build_stack_trace: requires every chunk source map sorted (established by BytecodeBuilder::finish / BytecodeChunk::new, unit builder); that no other code edits the pub field source_map is unchecked',
+            'rule R11: for x in E.iter().rev() rewritten to a descending index loop over the same Vec (trusted: slice::iter().rev() visits the elements in descending index order, each once)',
+            'trace unit stand-ins: JsString::to_string yields the uninterpreted text of the string; JsValue, JsObject, CallFrame, TryHandler, Guarded, PendingCompletion, Gc<T>, Guard<T> opaque',
             'get_source_location: std contract of binary_search_by_key trusted (wrapper R9), cross-checked by BOUNDED Kani harnesses',
             'fewer than 2^32 lines/columns, byte offsets below 2^62 (assumed in the advance harness)',
             'line = 1 + terminators consumed, column = 1 + characters since the last terminator: induction over the advance step contract is a machine-checked pure-spec Verus lemma; the transcription of the Kani postcondition is the unchecked link',
@@ -139,8 +142,9 @@ PROPS = {
         ],
         'explanation': 'Verus: BytecodeBuilder::emit records the span current at emission (lookup(source_map, index).start == current_span.start), '
                        'never disturbs the spans of earlier instructions, and no other builder method touches the map; Kani: lexer line/column stepping '
-                       'for every Unicode scalar value, make_span, checkpoint/restore, get_source_location == lookup.',
-        'not_carried': 'parser spans, set_span discipline in compile_*, stack-trace frames and function names',
+                       'for every Unicode scalar value, make_span, checkpoint/restore, get_source_location == lookup; Verus: BytecodeVM::build_stack_trace returns '
+                       'exactly the running activation followed by the suspended callers innermost first, each located/named/filed by its own chunk.',
+        'not_carried': 'parser spans, set_span discipline in compile_*, trace propagation across nested VMs, error formatting',
     },
     'C13': {
         'verus': [{'unit': 'induction', 'rlimit': 20}],
